@@ -268,6 +268,10 @@ pub fn main(layouts_json: &str, entries: &[Entry]) -> i32 {
                     *pert.entry("set_".into()).or_insert(0) += st.sets;
                     *pert.entry("with_".into()).or_insert(0) += st.withs;
                     *pert.entry("builder_construction".into()).or_insert(0) += st.builds;
+                    if prop == "C11" {
+                        *pert.entry("out_of_range_index_write".into()).or_insert(0) += st.oob_index_writes;
+                        *pert.entry("out_of_range_index_write_returned_normally".into()).or_insert(0) += st.oob_writes_returned_normally;
+                    }
                     for i in 0..N_PROBES {
                         probes[i] += st.probes[i];
                     }
